@@ -379,10 +379,11 @@ func runTreeScenario(w *ndWriter, seed int64, variant string, nEvents int, idx i
 		ctlFilter = []string{"lx1", "nsa", "nlx1"}[rng.Intn(3)]
 	}
 	tr.LogRaw("drv", "begin", fmt.Sprintf(`"run":%q,"variant":%q,"seed":%d,"buf":%d,"keys":["a","b","c","d"],"ctlfilter":%q,"perturb":%d`, run, variant, seed, kcache.EventBufsiz, ctlFilter, pert.rate))
-	for i := 0; i < rng.Intn(4); i++ {
+	for i := 0; i < 1+rng.Intn(4); i++ {
 		s.srv.Set(treeKeys[rng.Intn(len(treeKeys))], rng.Intn(2))
 	}
 	firstGate := make(chan struct{})
+	earlyClose := false
 	gated := rng.Intn(2) == 0
 	if gated {
 		s.srv.lists = []ListAct{{Gate: firstGate}}
@@ -455,6 +456,18 @@ func runTreeScenario(w *ndWriter, seed int64, variant string, nEvents int, idx i
 		}
 		s.randomRefilter(rng, 50)
 		close(firstGate)
+		if (variant == "close" || variant == "refilter") && rng.Intn(3) == 0 {
+			// shut the root down at the very moment it becomes ready: descendants that are just being told
+			// "parent ready" find a parent cache that is already stopping
+			time.Sleep(time.Duration(rng.Intn(300)) * time.Microsecond)
+			earlyClose = true
+			tr.LogRaw("drv", "call.close", fmt.Sprintf(`"node":0,"stage":%q,"how":"close-at-ready"`, root.stage))
+			go ctl.Close()
+		}
+	}
+	if earlyClose {
+		streamLen = 0
+		maxNodes = 0
 	}
 	sinceBarrier := 0
 	for ev := 0; ev < streamLen && !s.wedged; ev++ {
@@ -484,7 +497,7 @@ func runTreeScenario(w *ndWriter, seed int64, variant string, nEvents int, idx i
 			time.Sleep(time.Duration(rng.Intn(150)) * time.Microsecond)
 		}
 	}
-	for len(s.nodes) < 3 && !s.wedged {
+	for len(s.nodes) < 3 && !s.wedged && !earlyClose {
 		newNode()
 		if len(s.publishers()) == 0 {
 			break
